@@ -31,6 +31,8 @@ const (
 	aConcrete       // some non-nil value of a concrete type (result of a successful type assertion)
 	aFunc           // a known function value (entry of a package-level dispatch table)
 	aSlot           // address of element Idx of the package-level table G
+	aPtr            // pointer to abstract struct object Idx of the evaluator's heap
+	aFieldRef       // address of field C (int) of abstract object Idx
 )
 
 type aval struct {
@@ -48,7 +50,14 @@ func (a aval) String() string {
 		if a.Tag == nil {
 			return "nil-interface"
 		}
+		if a.C != nil {
+			return "dyn:" + typeString(a.Tag) + "=" + a.C.ExactString()
+		}
 		return "dyn:" + typeString(a.Tag)
+	case aPtr:
+		return fmt.Sprintf("ptr#%d", a.Idx)
+	case aFieldRef:
+		return fmt.Sprintf("field#%d.%s", a.Idx, a.C.ExactString())
 	case aConst:
 		if a.C == nil {
 			return "const nil"
@@ -90,6 +99,43 @@ type tagEval struct {
 	binopHook   func(bo *ssa.BinOp) (aval, bool)
 	globals     map[*ssa.Global]map[string]constant.Value // string-keyed constant maps built in init
 	tables      map[*ssa.Global]map[int64]*ssa.Function   // package-level arrays/maps of functions, by constant index
+	// heap of abstract struct objects (field index -> value); shared by all frames, so a
+	// fork on an undecided condition while it is in use makes the results unreliable
+	heap       map[int64]map[int]aval
+	nextObj    int64
+	heapForked bool
+}
+
+// newObj allocates an abstract struct object with the given fields.
+func (te *tagEval) newObj(fields map[int]aval) aval {
+	if te.heap == nil {
+		te.heap = map[int64]map[int]aval{}
+	}
+	te.nextObj++
+	if fields == nil {
+		fields = map[int]aval{}
+	}
+	te.heap[te.nextObj] = fields
+	return aval{K: aPtr, Idx: te.nextObj}
+}
+
+func zeroAval(t types.Type) aval {
+	switch u := t.Underlying().(type) {
+	case *types.Interface:
+		return aval{K: aTag, Tag: nil}
+	case *types.Basic:
+		switch {
+		case u.Kind() == types.Bool:
+			return aval{K: aConst, C: constant.MakeBool(false)}
+		case u.Info()&types.IsInteger != 0:
+			return aval{K: aConst, C: constant.MakeInt64(0)}
+		case u.Kind() == types.String:
+			return aval{K: aConst, C: constant.MakeString("")}
+		}
+	case *types.Pointer, *types.Slice, *types.Map, *types.Signature:
+		return aval{K: aConst, C: nil}
+	}
+	return aval{}
 }
 
 func (c *Ctx) newTagEval() *tagEval {
@@ -425,6 +471,14 @@ func (te *tagEval) run(fr *frame, b *ssa.BasicBlock, pred *ssa.BasicBlock, depth
 					if xv.K == aGlobal {
 						fr.env[x] = xv // the value stored in the global
 					}
+					if xv.K == aFieldRef {
+						f, _ := constant.Int64Val(xv.C)
+						if v, ok := te.heap[xv.Idx][int(f)]; ok {
+							fr.env[x] = v
+						} else {
+							fr.env[x] = zeroAval(x.Type())
+						}
+					}
 					if xv.K == aSlot {
 						if f := te.tables[xv.G][xv.Idx]; f != nil {
 							fr.env[x] = aval{K: aFunc, Fn: f}
@@ -436,6 +490,16 @@ func (te *tagEval) run(fr *frame, b *ssa.BasicBlock, pred *ssa.BasicBlock, depth
 					if xv.K == aConst && xv.C != nil && xv.C.Kind() == constant.Int {
 						fr.env[x] = aval{K: aConst, C: constant.UnaryOp(token.SUB, xv.C, 0)}
 					}
+				}
+			case *ssa.Alloc:
+				if te.heap != nil {
+					if _, isStruct := x.Type().Underlying().(*types.Pointer).Elem().Underlying().(*types.Struct); isStruct {
+						fr.env[x] = te.newObj(nil)
+					}
+				}
+			case *ssa.FieldAddr:
+				if bv := te.val(fr, x.X); bv.K == aPtr {
+					fr.env[x] = aval{K: aFieldRef, Idx: bv.Idx, C: constant.MakeInt64(int64(x.Field))}
 				}
 			case *ssa.IndexAddr:
 				if g, ok := x.X.(*ssa.Global); ok {
@@ -470,6 +534,10 @@ func (te *tagEval) run(fr *frame, b *ssa.BasicBlock, pred *ssa.BasicBlock, depth
 					fr.env[x] = r
 				}
 			case *ssa.Store:
+				if av := te.val(fr, x.Addr); av.K == aFieldRef {
+					f, _ := constant.Int64Val(av.C)
+					te.heap[av.Idx][int(f)] = te.val(fr, x.Val)
+				}
 				if te.storeObs != nil {
 					te.storeObs(x, te.val(fr, x.Val), func(v ssa.Value) aval { return te.val(fr, v) })
 				}
@@ -513,6 +581,9 @@ func (te *tagEval) run(fr *frame, b *ssa.BasicBlock, pred *ssa.BasicBlock, depth
 					goto next
 				}
 				// undecided: explore both
+				if len(te.heap) > 0 {
+					te.heapForked = true
+				}
 				f2 := fr.clone()
 				te.run(f2, b.Succs[0], b, depth, outs)
 				pred = b
